@@ -43,14 +43,25 @@ Definition bitfield_update_core (w : bits) (s e : option Z) (conv : nat -> optio
 Definition bitfield_update (w : bits) (s e : option Z) (nv : bits) (tr : bool) : option bits :=
   bitfield_update_core w s e (fun bw => Some (as_wires_bw nv bw tr)).
 
-(* newvalue is a non-negative Python int:
+(* newvalue is a Python int (any sign):
      if truncating and isinstance(newvalue, int): newvalue &= (1 << len(idxs_middle)) - 1
-   then as_wires -> Const(val, bitwidth=bw), which raises when val needs more than bw bits *)
+   then as_wires -> Const(val, bitwidth=bw) -> helperfuncs._convert_int(val, bw, signed=False):
+   val >= 0 raises when val needs more than bw bits; val < 0 raises unless (val >> bw-1) == -1,
+   otherwise it is stored in two's complement at bw bits *)
 Definition conv_int (v : Z) (tr : bool) (bw : nat) : option bits :=
   let v' := if tr then Z.land v (2 ^ Z.of_nat bw - 1) else v in
-  if (0 <=? v') && (v' <? 2 ^ Z.of_nat bw) then Some (of_Z bw v') else None.
+  let fits := if 0 <=? v' then v' <? 2 ^ Z.of_nat bw
+              else Z.shiftr v' (Z.of_nat bw - 1) =? -1 in
+  if fits then Some (of_Z bw v') else None.
 Definition bitfield_update_int (w : bits) (s e : option Z) (v : Z) (tr : bool) : option bits :=
   bitfield_update_core w s e (conv_int v tr).
+
+(* a new value of either kind *)
+Inductive newval := NVw (b : bits) | NVi (v : Z).
+Definition conv_nv (nv : newval) (tr : bool) (bw : nat) : option bits :=
+  match nv with NVw b => Some (as_wires_bw b bw tr) | NVi v => conv_int v tr bw end.
+Definition bitfield_update_nv (w : bits) (s e : option Z) (nv : newval) (tr : bool) : option bits :=
+  bitfield_update_core w s e (conv_nv nv tr).
 
 (* setlist[s:e] = [True] * len(setlist[s:e]) *)
 Definition set_slice (l : list bool) (s e : option Z) : list bool :=
@@ -72,3 +83,20 @@ Fixpoint bfus_rec (w : bits) (setlist : list bool)
 Definition bitfield_update_set (w : bits) (ups : list ((option Z * option Z) * bits)) (tr : bool)
   : option bits :=
   bfus_rec w (repeat false (length w)) ups tr.
+
+(* bitfield_update_set with wire or int values *)
+Fixpoint bfus_rec_nv (w : bits) (setlist : list bool)
+         (ups : list ((option Z * option Z) * newval)) (tr : bool) : option bits :=
+  match ups with
+  | [] => Some w
+  | ((s, e), nv) :: rest =>
+    if existsb (fun b => b) (pyslice setlist s e) then None
+    else match bitfield_update_nv w s e nv tr with
+         | None => None
+         | Some w' => bfus_rec_nv w' (set_slice setlist s e) rest tr
+         end
+  end.
+
+Definition bitfield_update_set_nv (w : bits) (ups : list ((option Z * option Z) * newval)) (tr : bool)
+  : option bits :=
+  bfus_rec_nv w (repeat false (length w)) ups tr.
